@@ -269,11 +269,13 @@ def run(tier):
         origins[o.split(":")[0]] = origins.get(o.split(":")[0], 0) + 1
     distinct = len(set(d for o, d in inputs))
     cov = {"evaluations": len(inputs), "distinct_nontrivial": distinct,
-           "rule": "inputs by origin %s; grammar = leftmost derivations of Grammar.tla with <= %d expansion steps (" + ("all %d" % ngram if ngram == len(gcases) else "%d of %d: all of up to 7 tokens, the longer ones sampled" % (len(gcases), ngram)) + "), two renderings each, with stress "
-                   "literals/operators/strings; grammar-deep = random derivations (TLC simulation); bytes = every string of length <= %d "
-                   "over the 12-symbol hostile alphabet; mutation = seeded token/byte mutations and splices of the corpora; options "
-                   "rotate over the 36 combinations of 3 curves x 3 levels x verbose x sarif; non-trivial = distinct inputs (byte-wise)" %
-                   (origins, steps, nbytes),
+           "rule": ("inputs by origin %s; grammar = leftmost derivations of Grammar.tla with <= %d expansion steps (%s), two renderings each, "
+                    "with stress literals/operators/strings; grammar-deep = random derivations (TLC simulation); bytes = every string of "
+                    "length <= %d over the 12-symbol hostile alphabet; mutation = seeded token/byte mutations and splices of the corpora; "
+                    "options rotate over the 36 combinations of 3 curves x 3 levels x verbose x sarif; non-trivial = distinct inputs "
+                    "(byte-wise)") %
+                   (origins, steps, ("all %d" % ngram) if ngram == len(gcases) else
+                    ("%d of %d: all of up to 7 tokens, the longer ones sampled" % (len(gcases), ngram)), nbytes),
            "samples": [{"origin": o, "input": d.decode("utf-8", "replace")[:300]} for (o, d) in (inputs[5], inputs[nA // 2], inputs[-1])],
            "states": gen.distinct + bgen.distinct + tstates, "transitions": gen.generated + bgen.generated + tstates,
            "traces_validated_against_impl": len(records)}
